@@ -107,21 +107,9 @@ fn k_opponent_piece_mask() {
     kani::cover!(board_wf(&pb));
     gs.opponent_piece_mask(&pb);
 }
-// @obl props=C01 tier=thorough kind=contract mem=20 est=600 timeout=3000
-// @uses GameState::curr_player_non_frozen_pieces GameState::threatened_pieces supported_pieces GameState::opponent_piece_mask
-// @keep k_threatened_pieces k_supported_pieces k_opponent_piece_mask
-// @fns GameState::curr_player_non_frozen_pieces
-// @clause in-place contract of curr_player_non_frozen_pieces (64-way) with the caller checked against the CONTRACTS of threatened_pieces, supported_pieces, opponent_piece_mask only (stub_verified), not their bodies
-#[kani::proof_for_contract(GameState::curr_player_non_frozen_pieces)]
-#[kani::stub_verified(GameState::threatened_pieces)]
-#[kani::stub_verified(supported_pieces)]
-#[kani::stub_verified(GameState::opponent_piece_mask)]
-fn k_curr_player_non_frozen_pieces_modular() {
-    let gs = lean_state(kani::any());
-    let pb = any_board_raw();
-    kani::cover!(board_wf(&pb));
-    gs.curr_player_non_frozen_pieces(&pb);
-}
+// (A modular variant -- in-place 64-way contract of curr_player_non_frozen_pieces checked against the CONTRACTS of
+//  threatened_pieces / supported_pieces / opponent_piece_mask via stub_verified -- was tried twice and runs out of memory
+//  (5 GB and 20 GB caps); the statement is discharged in the symbolic-square form below, with the callee bodies inlined.)
 
 // @obl props=C01,C02,C07,C12,C13,C19 tier=quick kind=harness-contract mem=3 est=20
 // @fns GameState::curr_player_non_frozen_pieces GameState::threatened_pieces supported_pieces GameState::opponent_piece_mask influenced_squares
@@ -2023,7 +2011,7 @@ fn c12_public_status() {
     let ns = gs.take_action(&mv(i, d));
     assert!(pp_of(ns.unwrap_play_phase().push_pull_state()) == next_pp(&pb, side, pp, i, d), "C12 (public API): reported status describes the step just made");
 }
-// @obl props=C07,C04 tier=thorough kind=harness-contract mem=12 est=600 timeout=3600
+// @obl props=C07,C04 tier=quick kind=harness-contract mem=6 est=90 timeout=1800
 // @fns GameState::has_move GameState::extend_with_valid_curr_player_piece_moves GameState::extend_with_pull_piece_actions GameState::extend_with_push_piece_actions GameState::has_non_passing_like_action GameState::can_pass
 // @clause cross-check without the generator abstraction: the real has_move with the three real generators at step 0 (seam = recorder, which is emptiness-faithful: the real code only calls it with a non-empty word). A reported loss implies that no (square, direction) is a legal single step or push start; no loss implies a generator handed a non-empty mask to the seam
 #[kani::proof]
